@@ -71,6 +71,7 @@ type rCfg struct {
 	Rendezvous      bool   `json:"rendezvous"`
 	StageEndDelayAt int    `json:"stage_end_delay_at"` // file mode: the stage loop is held for stage_end_delay_us when this stage (1-based) ends
 	StageEndDelayUs int64  `json:"stage_end_delay_us"`
+	StallFirstUs    int64  `json:"stall_first_us"` // the trigger goroutine is held this long right after its FIRST evaluation (a slow pool start)
 	CancelAtEval    int    `json:"cancel_at_eval"` // file mode: the caller cancels right after this rate evaluation (1-based), while the trigger goroutine is still busy with it for stall_us
 	UIntervalUs     int64  `json:"uinterval_us"`   // scripted configured-rate function: the interval it is configured for (0 = not scripted)
 	StallEval       int    `json:"stall_eval"`     // the trigger goroutine is held for stall_us right after this evaluation (1-based; 0 = never)
@@ -129,6 +130,7 @@ type rRec struct {
 	stageEndDelayAt int
 	stageEndDelayUs int64
 	cancelAtEval    int
+	stallFirstUs    int64
 	cancelFn        func()
 	stallEval       int
 	stallUs         int64
@@ -178,6 +180,9 @@ func (r *rRec) hook(point string, who any, n int64) {
 	case "iw.eval":
 		r.add(rEv{K: "eval", A: n, C: r.us()})
 		k := r.nEval.Add(1)
+		if k == 1 && r.stallFirstUs > 0 {
+			time.Sleep(time.Duration(r.stallFirstUs) * time.Microsecond) // schedule control: starting the pool takes most of an interval
+		}
 		if r.stallEval > 0 && int(k) == r.stallEval {
 			time.Sleep(time.Duration(r.stallUs) * time.Microsecond) // schedule control: the trigger goroutine is starved here
 		}
@@ -370,7 +375,7 @@ func runOne(c *ctx, rc rCase, m *metrics.Metrics) rTrace {
 	rec := &rRec{t0: time.Now(), stopG: map[int64]bool{}, envKeys: rc.envKeys, stageEnv: rc.stageEnv,
 		stopDelay: time.Duration(rc.cfg.StopDelayUs) * time.Microsecond, wedge: rc.cfg.Wedge, atSummary: make(chan struct{}),
 		stallEval: rc.cfg.StallEval, stallUs: rc.cfg.StallUs, stageEndDelayAt: rc.cfg.StageEndDelayAt, stageEndDelayUs: rc.cfg.StageEndDelayUs,
-		cancelAtEval: rc.cfg.CancelAtEval}
+		cancelAtEval: rc.cfg.CancelAtEval, stallFirstUs: rc.cfg.StallFirstUs}
 	verifhook.Install(rec.hook)
 	defer verifhook.Install(nil)
 	curRec.Store(rec)
@@ -855,6 +860,17 @@ func buildCases(c *ctx) []rCase {
 				}, bodyMaxUs: 2000}
 			add(rc)
 		}
+	}
+	// a slow start (most of an interval passes between the first evaluation and the ticker) followed by a slow first
+	// tick: the second and third evaluations still keep their distance
+	for k := 0; k < 3; k++ {
+		iv := []int64{20, 50, 100}[k]
+		rc := constantCase("slow-start-slow-first-tick", fmt.Sprintf("2/%dms", iv), iv*ms, 4, 0, 12*iv*ms, "none")
+		rc.cfg.StallFirstUs = iv * 1000 * int64(7+k) / 10 // 0.7 .. 0.9 intervals
+		rc.cfg.StallEval = 2
+		rc.cfg.StallUs = iv * 1000 * 6 / 10
+		rc.bodyMaxUs = 1000
+		add(rc)
 	}
 	// a profile that is zero in the middle: zero-rate ticks are requests too (they supersede pending work)
 	add(rCase{cfg: rCfg{Name: "staged-zero-middle", Mode: "staged", RateMode: true, Conc: 1, MaxDurUs: 2000 * ms, IntervalUs: 20 * ms, Args: "0s:6,60ms:0,80ms:0,100ms:6"},
